@@ -74,7 +74,9 @@ func TestVerifC22Etcd(t *testing.T) {
 		}
 		runOne(sc)
 	} else {
-		cfg := func(n string) *msCfg { return &msCfg{Name: n, RF: 1, RetMs: 9000, RetBytes: -1, Config: [][2]string{{"k", n}}} }
+		cfg := func(n string) *msCfg {
+			return &msCfg{Name: n, RF: 1, RetMs: 9000, RetBytes: -1, Config: [][2]string{{"k", n}}}
+		}
 		corpus := []msScenario{
 			{Brokers: 1, X: "orders", Y: "orders-v2", Groups: []string{"g1"}, MaxPart: 2,
 				Setup: []msOp{{K: "ct", Topic: "orders", N: 1, RF: 1}, {K: "ct", Topic: "orders-v2", N: 2, RF: 1}, {K: "cp", Topic: "orders-v2", N: 3}, {K: "uc", C: cfg("orders-v2")},
@@ -82,10 +84,10 @@ func TestVerifC22Etcd(t *testing.T) {
 				Muts: []msOp{{K: "dt", Topic: "orders"}}},
 			{Brokers: 1, X: "a.b", Y: "a", Groups: []string{"g1", "a.b"}, MaxPart: 1,
 				Setup: []msOp{{K: "ct", Topic: "a", N: 2, RF: 1}, {K: "ct", Topic: "a.b", N: 2, RF: 1}, {K: "uc", C: cfg("a")}, {K: "uo", Topic: "a", Part: 1, N: 3}, {K: "uo", Topic: "a.b", Part: 1, N: 9}, {K: "co", Group: "a.b", Topic: "a", Part: 0, N: 4}},
-				Muts: []msOp{{K: "dt", Topic: "a.b"}, {K: "ct", Topic: "a.b", N: 1, RF: 1}, {K: "dt", Topic: "a.b"}}},
+				Muts:  []msOp{{K: "dt", Topic: "a.b"}, {K: "ct", Topic: "a.b", N: 1, RF: 1}, {K: "dt", Topic: "a.b"}}},
 			{Brokers: 1, X: "t1", Y: "t10", Groups: []string{"offsets"}, MaxPart: 2,
 				Setup: []msOp{{K: "ct", Topic: "t10", N: 1, RF: 1}, {K: "ct", Topic: "t1", N: 1, RF: 1}, {K: "cp", Topic: "t10", N: 2}, {K: "cp", Topic: "t1", N: 12}, {K: "uo", Topic: "t10", Part: 0, N: 3}, {K: "uo", Topic: "t1", Part: 10, N: 8}},
-				Muts: []msOp{{K: "dt", Topic: "t1"}}},
+				Muts:  []msOp{{K: "dt", Topic: "t1"}}},
 		}
 		for _, sc := range corpus {
 			runOne(sc)
